@@ -686,6 +686,18 @@ impl Report {
     }
 }
 
+/// Deterministic bytes for fixed-work batches, drawn from proptest's RNG
+/// (ChaCha) seeded with (VERIF_SEED, tag).
+pub fn seeded_bytes(seed: u64, tag: &str, n: usize) -> Vec<u8> {
+    use proptest::strategy::{Strategy, ValueTree};
+    let mut sd = [0u8; 32];
+    sd[..8].copy_from_slice(&seed.to_le_bytes());
+    sd[8..16].copy_from_slice(&fnv_str(&[tag]).to_le_bytes());
+    let rng = TestRng::from_seed(RngAlgorithm::ChaCha, &sd);
+    let mut runner = TestRunner::new_with_rng(Config::default(), rng);
+    vec(any::<u8>(), n..=n).new_tree(&mut runner).unwrap().current()
+}
+
 pub fn one_line(s: &str, max: usize) -> String {
     let s: String = s.chars().map(|c| if c == '\n' { ' ' } else { c }).collect();
     if s.chars().count() > max {
